@@ -262,12 +262,22 @@ def dump(dev, depth: int, lines: List[str]) -> None:
                 attr_tok(lambda: sv.min_value, optv), attr_tok(lambda: sv.max_value, optv),
                 attr_tok(lambda: sv.allowed_values, setv), attr_tok(lambda: sv.default_value, optv)))
         for act in svc.actions.values():
-            lines.append("oact " + tok_str(act.name))
-            for arg in act.arguments:
+            args = list(act.arguments)
+
+            def pos(a) -> str:
+                for i, x in enumerate(args):
+                    if x is a:
+                        return str(i)
+                return "~" if a is None else "999"       # 999: an object that is not one of `arguments`
+
+            idx = lambda l: ",".join(pos(a) for a in l) or "~"  # noqa: E731
+            lines.append("oact {} {} {}".format(tok_str(act.name), idx(act.in_arguments()), idx(act.out_arguments())))
+            for arg in args:
                 rsv = arg.related_state_variable
                 bound = 1 if svc.state_variables.get(rsv.name) is rsv and act.service is svc else 0
-                lines.append("oarg {} {} {} {} {}".format(tok_str(arg.name), tok_str(arg.direction), tok_str(rsv.name),
-                                                        tok_str(rsv.data_type), bound))
+                lines.append("oarg {} {} {} {} {} {} {}".format(
+                    tok_str(arg.name), tok_str(arg.direction), tok_str(rsv.name), tok_str(rsv.data_type), bound,
+                    pos(act.argument(arg.name, arg.direction)), pos(act.argument(arg.name))))
     for emb in dev.embedded_devices.values():
         assert emb.parent_device is dev
         dump(emb, depth + 1, lines)
@@ -483,6 +493,16 @@ def g_scpd(rng, wf: bool) -> Dict[str, Any]:
                     g["related"] = "NoSuchVariable"
                 else:
                     g[which] = None
+            if args and rng.random() < 0.25:
+                # an in- and an out-argument of the same name (argument(name, direction) tells them apart)
+                o0 = rng.choice(args)
+                if o0["name"] is not None and o0["direction"] in ("in", "out"):
+                    other = "out" if o0["direction"] == "in" else "in"
+                    if not any(a["name"] == o0["name"] and a["direction"] == other for a in args):
+                        g["name"], g["direction"] = o0["name"], other
+                        g["related"] = rng.choice(names)
+            if not wf and args and rng.random() < 0.05:
+                g["name"], g["direction"] = args[0]["name"], args[0]["direction"]     # same name AND direction: not UPnP
             args.append(g)
         acts.append({"name": g_name(rng, j) if (wf or rng.random() < 0.9) else None, "args": args})
     if not wf and vs and rng.random() < 0.2:
@@ -620,6 +640,14 @@ def corpus() -> List[Dict[str, Any]]:
             "actions": None}
     out.append({"base": b, "strict": True, "dev": leaf_dev([svc(1, docd)]), "style": 6})
     out.append({"base": b, "strict": False, "dev": leaf_dev([svc(1, docd)]), "style": 7})
+    # an in- and an out-argument of one name, both orders, different related variables
+    doca = {"kind": "scpd", "vars": [var("A", "ui2"), var("B", "string"), var("C", "boolean")],
+            "actions": [{"name": "InOut", "args": [{"name": "X", "direction": "in", "related": "A"},
+                                                   {"name": "Y", "direction": "in", "related": "C"},
+                                                   {"name": "X", "direction": "out", "related": "B"}]},
+                        {"name": "OutIn", "args": [{"name": "X", "direction": "out", "related": "B"},
+                                                   {"name": "X", "direction": "in", "related": "A"}]}]}
+    out.append({"base": b, "strict": True, "dev": leaf_dev([svc(1, doca)]), "style": 9})
     # two services sharing one SCPD document
     out.append({"base": b, "strict": True, "dev": leaf_dev([svc(1, doc), {**svc(2, doc), "scpd": "scpd1.xml"}]), "style": 8})
     return out
